@@ -6,7 +6,8 @@ Compiler correctness (Props/Refine.lean), part 5: the domain of the theorems as 
 (structural recursion over the mutual block, like `Compiler.exprScoped`), with the soundness
 theorems `exprInCore_sound`, `nodesInCore_sound`: whatever passes the check is in the domain of
 `compile_expr_correct_core` / `compile_nodes_correct_core` (with `lf = false`).  A template fails
-the check exactly when it contains a component call, an `include`, a `block`, a binary `Is` /
+the check exactly when it contains a component call, an `include` of a name outside `incs`, a
+`block`, a binary `Is` /
 `Pipe` node (never produced by the parser), a `break` / `continue` outside a loop body, a call
 with a repeated keyword-argument name (rejected by the parser), or a set-block filter that is not
 a filter node (never produced by the parser).
@@ -186,31 +187,33 @@ theorem filtersInCore_sound : ∀ (filters : List Expr), filtersInCore filters =
     all_goals simp [filtersInCore] at h
 
 mutual
-/-- `inLoop`: a `for` body is around the statement with nothing but `if`s in between -/
-def nodeInCore (inLoop : Bool) : Node → Bool
+/-- `incs`: the template names that may be included; `inLoop`: a `for` body is around the
+statement with nothing but `if`s in between -/
+def nodeInCore (incs : List String) (inLoop : Bool) : Node → Bool
   | .content _ => true
   | .expression e => exprInCore e
   | .set _ e _ => exprInCore e
-  | .blockSet _ filters body _ => filtersInCore filters && nodesInCore false body
-  | .include _ => false
+  | .blockSet _ filters body _ => filtersInCore filters && nodesInCore incs false body
+  | .include name => incs.contains name
   | .block _ _ => false
   | .forLoop _ _ target body elseBody =>
-    exprInCore target && nodesInCore true body && nodesInCore inLoop elseBody
+    exprInCore target && nodesInCore incs true body && nodesInCore incs inLoop elseBody
   | .break => inLoop
   | .continue => inLoop
-  | .if c body falseBody => exprInCore c && nodesInCore inLoop body && nodesInCore inLoop falseBody
-  | .filterSection _ kw body => kwInCore kw && namesDistinct kw && nodesInCore false body
-def nodesInCore (inLoop : Bool) : List Node → Bool
+  | .if c body falseBody => exprInCore c && nodesInCore incs inLoop body && nodesInCore incs inLoop falseBody
+  | .filterSection _ kw body => kwInCore kw && namesDistinct kw && nodesInCore incs false body
+def nodesInCore (incs : List String) (inLoop : Bool) : List Node → Bool
   | [] => true
-  | n :: rest => nodeInCore inLoop n && nodesInCore inLoop rest
+  | n :: rest => nodeInCore incs inLoop n && nodesInCore incs inLoop rest
 end
 
-theorem nodeInCore_sound_aux :
-    (∀ inLoop n, nodeInCore inLoop n = true → InCoreNode false inLoop n) ∧
-    (∀ inLoop ns, nodesInCore inLoop ns = true → ∀ n ∈ ns, InCoreNode false inLoop n) := by
+theorem nodeInCore_sound_aux (incs : List String) :
+    (∀ inLoop n, nodeInCore incs inLoop n = true → InCoreNode false (· ∈ incs) inLoop n) ∧
+    (∀ inLoop ns, nodesInCore incs inLoop ns = true → ∀ n ∈ ns, InCoreNode false (· ∈ incs) inLoop n) := by
   apply nodeInCore.mutual_induct
-    (motive_1 := fun inLoop n => nodeInCore inLoop n = true → InCoreNode false inLoop n)
-    (motive_2 := fun inLoop ns => nodesInCore inLoop ns = true → ∀ n ∈ ns, InCoreNode false inLoop n)
+    (motive_1 := fun inLoop n => nodeInCore incs inLoop n = true → InCoreNode false (· ∈ incs) inLoop n)
+    (motive_2 := fun inLoop ns => nodesInCore incs inLoop ns = true →
+      ∀ n ∈ ns, InCoreNode false (· ∈ incs) inLoop n)
   case case1 => intro inLoop t _; exact .content t
   case case2 => intro inLoop e h; exact .expression (exprInCore_sound e (by simpa [nodeInCore] using h))
   case case3 => intro inLoop n e g h; exact .set n g (exprInCore_sound e (by simpa [nodeInCore] using h))
@@ -218,7 +221,10 @@ theorem nodeInCore_sound_aux :
     intro inLoop n filters body g ih h
     simp only [nodeInCore, Bool.and_eq_true] at h
     exact .blockSet n g (filtersInCore_sound filters h.1) (ih h.2)
-  case case5 => intro inLoop n h; simp [nodeInCore] at h
+  case case5 =>
+    intro inLoop n h
+    simp only [nodeInCore] at h
+    exact .include n rfl (by simpa using h)
   case case6 => intro inLoop n b h; simp [nodeInCore] at h
   case case7 =>
     intro inLoop k v target body elseBody ih1 ih2 h
@@ -242,10 +248,12 @@ theorem nodeInCore_sound_aux :
     · exact ih1 h.1
     · exact ih2 h.2 m hm'
 
-theorem nodesInCore_sound (inLoop : Bool) (ns : List Node) (h : nodesInCore inLoop ns = true) :
-    ∀ n ∈ ns, InCoreNode false inLoop n := nodeInCore_sound_aux.2 inLoop ns h
+theorem nodesInCore_sound (incs : List String) (inLoop : Bool) (ns : List Node)
+    (h : nodesInCore incs inLoop ns = true) :
+    ∀ n ∈ ns, InCoreNode false (· ∈ incs) inLoop n := (nodeInCore_sound_aux incs).2 inLoop ns h
 
-theorem nodeInCore_sound (inLoop : Bool) (n : Node) (h : nodeInCore inLoop n = true) :
-    InCoreNode false inLoop n := nodeInCore_sound_aux.1 inLoop n h
+theorem nodeInCore_sound (incs : List String) (inLoop : Bool) (n : Node)
+    (h : nodeInCore incs inLoop n = true) :
+    InCoreNode false (· ∈ incs) inLoop n := (nodeInCore_sound_aux incs).1 inLoop n h
 
 end Tera.Refine
